@@ -239,6 +239,9 @@ pub struct World {
     /// seed for the bytes answered to getrandom
     #[serde(default)]
     pub entropy: u64,
+    /// file mode creation mask of the process (None: 022)
+    #[serde(default)]
+    pub umask: Option<u32>,
 }
 
 impl World {
